@@ -1,10 +1,44 @@
 (* C16 correspondence cases: the numeric skeleton of an input together with what the real parser
    did with it (in a sandboxed child process): ROk / RErr, or RPanic for a panic, an abort
    (stack overflow, failed allocation), a timeout or a heap use unrelated to the input size. *)
-From FB Require Export C16.Model C16.ModelText C16.ModelEv C16.ModelClsRead Base.Run.
+From FB Require Export C16.Model C16.ModelText C16.ModelEv C16.ModelClsRead C16.ModelClsTree Base.Run.
 From FB Require C16.SitesGen.
 
 Inductive real := ROk | RErr | RPanic.
+
+(* what the harness reads off the ClassFile duke::read_class returned.  Numbers the tree keeps raw: number of
+   interfaces; per method Code as (max_stack, max_locals, exception table length, line numbers in order) and the
+   number of Exceptions entries; the numbers of Module requires / exports / opens.  Flags are stored DECODED
+   (structs of bools; From<u16> drops the bits it does not know): the harness sends u16::from(flags) together with
+   the mask u16::from(T::from(0xFFFF)) of each flags type, and the model's raw value must agree under the mask:
+   class access, InnerClasses flags, Module flags, per field its access, per method its access and its
+   MethodParameters flags *)
+Record masks := mkMK { mk_class : N; mk_inner : N; mk_module : N; mk_field : N; mk_method : N; mk_param : N }.
+Record mskel := mkMS { ms_access : N; ms_code : option (N * N * N * list N); ms_exceptions : option N; ms_parameters : option (list N) }.
+Record cskel := mkSK { sk_access : N; sk_interfaces : N; sk_inner : option (list N); sk_module : option (N * N * N * N);
+                       sk_fields : list N; sk_methods : list mskel }.
+Definition cnt {A} (l : list A) : N := N.of_nat (length l).
+Definition masked (mask : N) (l : list N) : list N := map (fun x => N.land x mask) l.
+Definition mskel_of (k : masks) (m : rmethod) : mskel :=
+  let a := rm_attrs m in
+  mkMS (N.land (rm_access m) (mk_method k))
+       (option_map (fun c => (rc_max_stack c, rc_max_locals c, cnt (rc_handlers c), rc_lines c)) (ma_code a))
+       (option_map cnt (ma_exceptions a)) (option_map (masked (mk_param k)) (ma_parameters a)).
+Definition cskel_of (k : masks) (t : rtree) : cskel :=
+  mkSK (N.land (t_access t) (mk_class k)) (cnt (t_interfaces t)) (option_map (masked (mk_inner k)) (t_inner_flags t))
+       (option_map (fun m => (N.land (mo_flags m) (mk_module k), cnt (mo_requires m), cnt (mo_exports m), cnt (mo_opens m))) (t_module t))
+       (masked (mk_field k) (map rf_access (t_fields t))) (map (mskel_of k) (t_methods t)).
+Definition code_eqb (a b : N * N * N * list N) : bool :=
+  let '(a1, a2, a3, a4) := a in let '(b1, b2, b3, b4) := b in (a1 =? b1) && (a2 =? b2) && (a3 =? b3) && list_eqb N.eqb a4 b4.
+Definition quad_eqb (a b : N * N * N * N) : bool :=
+  let '(a1, a2, a3, a4) := a in let '(b1, b2, b3, b4) := b in (a1 =? b1) && (a2 =? b2) && (a3 =? b3) && (a4 =? b4).
+Definition mskel_eqb (a b : mskel) : bool :=
+  (ms_access a =? ms_access b) && opt_eqb code_eqb (ms_code a) (ms_code b) && opt_eqb N.eqb (ms_exceptions a) (ms_exceptions b)
+  && opt_eqb (list_eqb N.eqb) (ms_parameters a) (ms_parameters b).
+Definition cskel_eqb (a b : cskel) : bool :=
+  (sk_access a =? sk_access b) && (sk_interfaces a =? sk_interfaces b) && opt_eqb (list_eqb N.eqb) (sk_inner a) (sk_inner b)
+  && opt_eqb quad_eqb (sk_module a) (sk_module b) && list_eqb N.eqb (sk_fields a) (sk_fields b)
+  && list_eqb mskel_eqb (sk_methods a) (sk_methods b).
 
 Inductive case :=
 | CRange (code_len start len : N) (r : real)          (* LocalVariable(Type)Table entry *)
@@ -24,8 +58,11 @@ Inductive case :=
 | CUnesc (cell : str) (r : real) (got : str)          (* tiny v2 class comment cell and the comment the reader stored, both as UTF-8 bytes *)
 | CText (kind n : N) (input : list N) (r : real)      (* a whole text file (bytes): 0 tiny v2 with n namespaces, 1 tiny diff, 2 Enigma, 3 nests *)
 | CClass (bytes : list N) (r : real)                  (* a whole class file: what duke::read_class did with it *)
-| CClassV (bytes : list N) (r : real) (no_members decline_code unit skim decline : bool).
+| CClassV (bytes : list N) (r : real) (no_members decline_code unit skim decline : bool)
     (* ... and whether read_class_multi accepted it with each of five other visitors (no panic anywhere) *)
+| CClassT (bytes : list N) (no_members decline_code unit skim decline : bool) (k : masks) (sk : cskel).
+    (* an ACCEPTED class: the same, and the numbers found in the ClassFile that duke::read_class returned, for the
+       instrumented reader of coq/C16/ModelClsTree.v *)
 
 (* the model's answer and the observed one agree exactly *)
 Definition same {A} (m : out A) (r : real) : bool :=
@@ -80,5 +117,13 @@ Definition check (c : case) : bool :=
   | CClassV bytes r nm dc un sk de =>
       let accepts (v : vis) (b : bool) := match read_class_with v bytes with Done _ => b | Fail => negb b | Panic => false end in
       same (read_class_out bytes) r && accepts no_members_vis nm && accepts decline_code_vis dc && accepts unit_vis un
+      && accepts skim_vis sk && accepts decline_vis de
+  | CClassT bytes nm dc un sk de k skel =>
+      let accepts (v : vis) (b : bool) := match read_class_with v bytes with Done _ => b | Fail => negb b | Panic => false end in
+      match read_class_tree bytes with
+      | Done t => cskel_eqb (cskel_of k t) skel
+      | _ => false
+      end (* a tree means read_class_out bytes = Done tt: C16_reader_tree_accepts_iff *)
+      && accepts no_members_vis nm && accepts decline_code_vis dc && accepts unit_vis un
       && accepts skim_vis sk && accepts decline_vis de
   end.
